@@ -27,7 +27,7 @@ def judge(req, obs):
             want_err, want_success = 1, False
         if want_err is not None and len(errs) != want_err:
             out.append(("<=10-transmissions" if len(errs) > want_err else "retry-iff-recoverable",
-                        "C08|transmissions|kind=%s|class=%s%s|run=%s" % (kind, e1.answer_class(e1.err(t)), "-nononce" if meta.get("nononce") else "", "ge10" if r >= 10 else "lt10"),
+                        "C08|transmissions|kind=%s|class=%s%s|run=%s" % (kind, e1.answer_class(e1.err(t)), "-nononce" if meta.get("nononce") else ("-" + meta["media"] if meta.get("media") else ""), "ge10" if r >= 10 else "lt10"),
                         "%d error-answered transmission(s) of the %s request for a run of %d x %s" % (want_err, kind, r, t),
                         "%d" % len(errs)))
         if want_success is not None and success != want_success:
@@ -60,7 +60,7 @@ def judge(req, obs):
 def run(ctx):
     res = Result("model_checking")
     res.rule = ("E1 with run-length scripts: every POST position x every ACME error type (24 + unregistered URN + no type) x run length "
-                "of consecutive error answers (quick {1,2,9,10,11}; thorough 1..12); status codes 400/403/429/500/503; recoverable errors without a Replay-Nonce header; "
+                "of consecutive error answers (quick {1,2,9,10,11}; thorough 1..12); status codes 400/403/429/500/503; recoverable errors without a Replay-Nonce header or with the media type spelled with a parameter / in another case; "
                 "non-JSON/empty error bodies at every position; conforming bodies under status 300/304/600 at every position; polled objects reaching the awaited status at poll 19..22. "
                 "Oracle on the CA log per logical request.")
     runs = [1, 2, 9, 10, 11] if ctx.quick else list(range(1, 13))
@@ -85,6 +85,15 @@ def run(ctx):
                 q["script"] = [{"kind": kind, "nth_from": 0, "nth_to": r - 1, "answer": e1.err(t, nononce=True)}]
                 q["meta"] = dict(base["meta"], run=[kind, t, r], nononce=True)
                 reqs.append(q)
+    # recoverable errors whose problem document is labelled with a legal variant of the media type (parameter, other case)
+    for kind in POST_KINDS:
+        for t in ("badNonce", "serverInternal", "rateLimited"):
+            for variant in ("ctparam", "ctcase"):
+                for r in (1, 2):
+                    q = dict(base)
+                    q["script"] = [{"kind": kind, "nth_from": 0, "nth_to": r - 1, "answer": "%s:%s" % (e1.err(t), variant)}]
+                    q["meta"] = dict(base["meta"], run=[kind, t, r], media=variant)
+                    reqs.append(q)
     # account update and key roll-over positions (two-phase flows: issue, change the configuration, renew)
     from . import c04
     for kind, flow, kt2 in [("acctUpdate", "contacts", None), ("keyChange", "rollover", "ecdsa-p384")]:
